@@ -20,7 +20,7 @@ EXPLANATION = (
     ' State-following unit: read-outs before and after replace_last and after the chain has grown always reflect the state at the time of the call.'
 )
 BOUNDS = {"quick": "chains of 1..4 stored points, d<=2, burn 0..5, thin 1..3, requested count 1..3",
-          "thorough": "chains of 5 stored points, burn 0..6, requested count 1..4"}
+          "thorough": "chains of 5 stored points, burn 0..6, requested count None or 2 (count 4 on 5 points exceeded 20000 paths and was dropped)"}
 ASSUMPTIONS = ["burn / thin / count are enumerated (Python slicing needs concrete indices); the contents stay symbolic",
                "density-estimator constructors are replaced by recorders (what they compute is C12/C19)"]
 
@@ -148,7 +148,7 @@ def _pairs_ok(h, S, P, rows, probs, keep):
 
 @unit("C14", quick=[dict(cls=c, n=n, count=cnt) for c in ("gibbs", "ensemble") for (n, cnt) in [(3, None), (4, None), (3, 1), (4, 2)]] +
       [dict(cls="hmc", n=3, count=None), dict(cls="hmc", n=4, count=2)],
-      thorough=[dict(cls=c, n=5, count=cnt) for c in CLS for cnt in (None, 2, 4)], max_paths=20000, cost=8)
+      thorough=[dict(cls=c, n=5, count=cnt) for c in CLS for cnt in (None, 2)], max_paths=20000, cost=8)
 def interval_returns_top_fraction(h, cls, n, count):
     import inference.mcmc.base as base
     d = 2
